@@ -264,12 +264,19 @@ def need(R, oid, rule, site, stmt, f, patterns, binding=None, loc=None, under=No
             for c in ast.iter_child_nodes(p):
                 parent[c] = p
         allowed = [parse_pattern(u)[1] for u in (under or [])]
+        from .pattern import _single_defs
+        defs = _single_defs(f.node)
         for n in nodes:
             c = n
             while c in parent and c is not f.node:
                 p = parent[c]
+                tst = p.test if isinstance(p, (ast.If, ast.While)) else None
+                if isinstance(tst, ast.Name) and tst.id in defs:
+                    tst = defs[tst.id]                      # a condition hoisted into a temporary
+                while isinstance(tst, ast.UnaryOp) and isinstance(tst.op, ast.Not):
+                    tst = tst.operand                       # polarity is not part of the licence
                 if isinstance(p, (ast.If, ast.While)) and c is not p.test and not any(
-                        _match(a, p.test, dict(b)) is not None for a in allowed):
+                        _match(a, tst, dict(b)) is not None for a in allowed):
                     neg = isinstance(p, ast.If) and c in p.orelse
                     cond.append('%s runs only if %s%s' % (ast.unparse(n).split('\n')[0][:50],
                                                          'not ' if neg else '', ast.unparse(p.test)[:60]))
@@ -381,3 +388,20 @@ def unlicensed(fl, e, allow=()):
         if not ok:
             out.append(g)
     return out
+
+
+def same_cond(fl, a, b):
+    """two conditions are the same test up to the normal form of conditions
+    (not / is not / != / len(x) == 0 ...), including polarity"""
+    ca, fa_ = fl.tab.canon_cond(a)
+    cb, fb_ = fl.tab.canon_cond(b)
+    return fa_ == fb_ and fl.tab.equal(ca, cb)
+
+
+def guard_is(fl, g, cond, positive=True):
+    """guard g means `cond` (positive) / `not cond`, whichever way the source spells it"""
+    if g.rf is None:
+        return False
+    cg, fg = fl.tab.canon_cond(g.rf)
+    cc, fc = fl.tab.canon_cond(cond)
+    return fl.tab.equal(cg, cc) and ((g.positive != fg) == (positive != fc))
